@@ -815,6 +815,12 @@ func rvArrayIndex(rv reflect.Value, i int, ti *typeInfo, isSlice bool) (v reflec
 	uv := (*unsafeReflectValue)(unsafe.Pointer(&v))
 	if isSlice {
 		uv.ptr = unsafe.Pointer(uintptr(((*unsafeSlice)(urv.ptr)).Data))
+	} else if urv.flag&unsafeFlagIndir == 0 {
+		// a pointer-shaped array (a single pointer-shaped element, e.g. [1]*T or [1]map[K]V,
+		// held by value) is stored directly in rv.ptr, not behind it.
+		// Give the element its own storage, so that the returned value can be indirect.
+		p := urv.ptr
+		uv.ptr = unsafe.Pointer(&p)
 	} else {
 		uv.ptr = unsafe.Pointer(uintptr(urv.ptr))
 	}
